@@ -107,6 +107,13 @@ Atoms == {<<1, <<97>>>>, <<1, <<98, 45, 49>>>>, <<2, 0>>, <<2, 10>>, <<2, 255>>}
 RECURSIVE Trees(_)
 Trees(dpt) == IF dpt = 0 THEN Atoms
               ELSE LET T == Trees(dpt - 1) IN T \cup {<<3, items>> : items \in SeqsUpTo(T, MaxItems)}
+(* deep nests: single-element chains and empty lists at every depth up to 6 *)
+RECURSIVE Nest(_, _)
+Nest(k, t) == IF k = 0 THEN t ELSE <<3, <<Nest(k - 1, t)>>>>
+Empty == <<3, <<>>>>
+DeepTrees == {Nest(k, t) : k \in 1..6, t \in Atoms \cup {Empty}}
+             \cup {<<3, <<Nest(k, Empty), Nest(j, t)>>>> : k \in 0..4, j \in 0..4, t \in {Empty, <<1, <<97>>>>}}
+             \cup {<<3, <<<<1, <<97>>>>, Nest(k, Empty), <<2, 10>>, Nest(j, Empty)>>>> : k \in 0..3, j \in 0..3}
 Styles == {[hex |-> h, upper |-> u, ws |-> w] : h \in BOOLEAN, u \in BOOLEAN, w \in {0, 1, 2}}
 Alphabet == <<40, 41, 32, 97, 49, 35, 120, 70, 45, 123>>                                        \* ( ) space a 1 # x F - {
 
@@ -125,7 +132,7 @@ Init == /\ phase \in {<<"b", "tree", k>> : k \in 0..11} \cup {<<"b", "str", k>> 
         /\ ev = Boot
 StyleNo(k) == CHOOSE st \in Styles : (IF st.hex THEN 6 ELSE 0) + (IF st.upper THEN 3 ELSE 0) + st.ws = k
 Next == /\ phase[1] = "b" /\ ev' = Boot
-        /\ \/ phase[2] = "tree" /\ \E t \in Trees(MaxDepth) : phase' = <<"c", "tree", t, StyleNo(phase[3])>>
+        /\ \/ phase[2] = "tree" /\ \E t \in Trees(MaxDepth) \cup DeepTrees : phase' = <<"c", "tree", t, StyleNo(phase[3])>>
            \/ phase[2] = "str" /\ phase[3] = 0 /\ phase' = <<"c", "str", <<>>>>
            \/ phase[2] = "str" /\ phase[3] > 0 /\ \E s \in SeqsUpTo(Range(Alphabet), MaxLen - 1) :
                  phase' = <<"c", "str", <<Alphabet[phase[3]]>> \o s>>
